@@ -93,6 +93,35 @@ func runReplay(rf *ReplayFile) (string, bool) {
 	switch rf.Expect {
 	case "panic":
 		ok = strings.Contains(s, "GOVC-REPLAY: PANIC")
+		// the panic must be the one the obligation is about, not just any crash of an arbitrary input
+		want := ""
+		if i := strings.Index(rf.Obligation, "#"); i >= 0 {
+			site := rf.Obligation[i+1:]
+			if j := strings.Index(site, ":"); j >= 0 {
+				site = site[:j]
+			}
+			switch site {
+			case "nil":
+				want = "nil pointer dereference"
+			case "nilmap":
+				want = "assignment to entry in nil map"
+			case "index":
+				want = "index out of range"
+			case "slice":
+				want = "slice bounds out of range"
+			case "div0":
+				want = "integer divide by zero"
+			case "shift":
+				want = "negative shift amount"
+			case "typeassert":
+				want = "interface conversion"
+			case "makeslice":
+				want = "out of range"
+			}
+		}
+		if ok && want != "" && !strings.Contains(s, want) {
+			ok = false
+		}
 	case "postcondition":
 		ok = strings.Contains(s, "GOVC-REPLAY: POSTCONDITION VIOLATED")
 	case "timeout":
